@@ -7,12 +7,13 @@ from ..pathcond import implied, text_pred
 from ..lin import Form
 
 MANIFEST = {
-    'technique': 'path-wise symbolic execution of every StreamSequence method with a dock/undock typestate; who-may-write rule on _sink/_source; side (inlet/outlet) kind rule on index and port-list uses',
-    'text': 'Decides the inductive steps of C18 on every path of every port-list method: each stream leaving a port list is undocked first, '
-            'each entering stream is docked, fixed-size lists only replace (never shrink/grow), _redock removes the stream from its previous '
-            'list before re-pointing it, only the dock methods (and constructors / the frozen auxiliary API) write _sink/_source, and an index or '
-            'stream of the inlet side never addresses the outlet list. The invariant over arbitrary operation sequences additionally needs the '
-            'stated preconditions and is not decided.',
+    'technique': 'path-wise symbolic execution of every StreamSequence method with a dock/undock typestate; who-may-write rule on _sink/_source; side (inlet/outlet) '
+            'kind rule on index and port-list uses; assignment-redocks and append-precondition clauses (path-wise)',
+    'text': 'Decides the inductive steps of C18 on every path of every port-list method: each stream leaving a port list is undocked first, each entering stream is '
+            'docked, fixed-size lists only replace (never shrink/grow), _redock removes the stream from its previous list before re-pointing it, only the dock '
+            'methods (and constructors / the frozen auxiliary API) write _sink/_source, and an index or stream of the inlet side never addresses the outlet list. '
+            "Item and slice assignment let streams in only through _redock; AbstractUnit.insert appends the line's stream to a port list only after it was taken "
+            'off its old list on that side. The invariant over arbitrary operation sequences additionally needs the stated preconditions and is not decided.',
 }
 
 NET = 'thermosteam/network.py'
